@@ -33,7 +33,7 @@ def run(tier, rep):
     recs = [r for r in res.records]
     cases = [r for r in recs if usable(r)]
     skipped = len(recs) - len(cases)
-    scales = [1.0, 2.0 ** 50, 2.0 ** -50, -2.0 ** 20, 2.0 ** -7] if tier == 'quick' else [2.0 ** k for k in (-50, -33, -20, -7, 0, 1, 13, 31, 50)] + [-2.0 ** 20]
+    scales = [1.0, 2.0 ** 50, 2.0 ** -50, -2.0 ** 20, 2.0 ** -7, 2.0 ** -62] if tier == 'quick' else [2.0 ** k for k in (-70, -62, -50, -33, -20, -7, 0, 1, 13, 31, 50, 62)] + [-2.0 ** 20]
     nscalar = 0
     # near-guard cases (|sss*e1| within 1% of 1e-4) are decided by rounding: excluded and counted
     def near_guard(r):
@@ -63,7 +63,11 @@ def run(tier, rep):
             cond = 1.0
             if not r['d3']['conv']:
                 d1, d2 = keep[1] - keep[0], keep[2] - keep[1]
-                cond = max(1.0, abs(d1 * d2 / (d2 - d1)) * (1 / abs(d1) + 1 / abs(d2)) / max(abs(want), 1e-300) if d2 != d1 else 1.0)
+                if d2 != d1:
+                    # result = e1 + corr, corr = 1/(1/d2 - 1/d1): a rounding eps*mag in each difference moves corr by
+                    # eps*mag*((corr/d1)^2 + (corr/d2)^2)  (dimensionless amplification, scale invariant)
+                    corr = d1 * d2 / (d1 - d2)
+                    cond = max(1.0, (corr / d1) ** 2 + (corr / d2) ** 2, abs(corr / d1) + abs(corr / d2))
             tol = 64 * EPS * mag * max(cond, 1.0) + 1e-300
             if not (np.isfinite(g) and abs(g - want) <= tol):
                 rep.violation('value:%s' % r['fam'], dict(e=r['e'], scale=c, got=g, want=want, conv=r['d3']['conv']),
@@ -86,7 +90,7 @@ def run(tier, rep):
         rnd.shuffle(order)
         n = len(order) - len(order) % 12
         order = order[:n]
-        sc = np.array([2.0 ** rnd.randint(-50, 50) * rnd.choice([1, -1]) for _ in order])
+        sc = np.array([2.0 ** rnd.randint(-62, 62) * rnd.choice([1, -1]) for _ in order])
         E = np.array([[vlib.fl(q) for q in cases[i]['e']] for i in order]) * sc[:, None]
         want = np.array([expected(cases[i], sc[j]) for j, i in enumerate(order)])
         for shape in [(n,), (n // 4, 4), (n // 12, 3, 4)]:
@@ -115,12 +119,28 @@ def run(tier, rep):
                 gs, es = dea3(v0, v1, v2, symmetric=True)
                 if not (np.array_equal(gs, got[:-1]) and np.array_equal(es, gerr[1:])):
                     rep.violation('symmetric', dict(shape=shape), 'symmetric=True is not the plain result with one element trimmed from each output')
+    # symmetric=True on short inputs: leading lengths 2, 3 and 5, one- and two-dimensional
+    for shape in [(2,), (3,), (5,), (2, 3), (3, 2), (5, 4), (2, 1)]:
+        m = int(np.prod(shape))
+        idx = [rnd.randrange(len(cases)) for _ in range(m)]
+        E = np.array([[vlib.fl(q) for q in cases[i]['e']] for i in idx])
+        v0, v1, v2 = [E[:, k].reshape(shape).copy() for k in range(3)]
+        try:
+            got, gerr = dea3(v0, v1, v2)
+            gs, es = dea3(v0, v1, v2, symmetric=True)
+        except Exception as ex:
+            rep.violation('raises-array', dict(shape=shape), 'dea3 raised %r on an array of shape %s' % (ex, shape))
+            continue
+        narr += 1
+        if not (np.shape(gs) == np.shape(got[:-1]) and np.array_equal(gs, got[:-1]) and np.shape(es) == np.shape(gerr[1:]) and np.array_equal(es, gerr[1:])):
+            rep.violation('symmetric:short', dict(shape=shape, got=[list(np.shape(gs)), list(np.shape(es))]),
+                          'symmetric=True on inputs of shape %s returns shapes %s / %s: not the plain result with one element trimmed from each output' % (shape, np.shape(gs), np.shape(es)))
     states, trans, per = vlib.merge_tlc([res])
     cov = dict(states=states, transitions=trans, traces_validated_against_impl=nscalar + narr, scalar_replays=nscalar, array_replays=narr,
                samples=[cases[3], cases[-3]], evaluations=nscalar + narr, skipped_outside_exact_domain=skipped,
                distinct_nontrivial=len([r for r in cases if not r['d3']['conv']]), exhaustive=True, scales=scales,
                rule='every triple of a 9-value grid plus geometric triples L + a q^j; non-trivial = not in the converged/guard branch', tlc=per)
     assum = ['on the exact domain a difference below max|e|*EPS is a zero difference (DomainOK)',
-             'magnitudes beyond the exact domain only through the scale-covariance lemma (powers of two, +-2^50)',
+             'magnitudes beyond the exact domain only through the scale-covariance lemma (powers of two, 2^-62 .. 2^62 quick, 2^-70 .. 2^62 thorough)',
              'rounding tolerance 64*eps*magnitude*conditioning of the three-term Shanks formula']
     return cov, assum
